@@ -125,6 +125,9 @@ class Message(IndiMessage):
         self.message = message
 
 
+IndiMessage.register_message(Message)
+
+
 class IndiMessagePart:
     def __init__(self, name, value, **junk):
         self.name = name
